@@ -97,7 +97,10 @@ class EngineWorld:
     def callback(self, name, ret=None):
         """a user callback: records ('cb', name, args) and returns ret"""
         def fn(interp, *a, **k):
-            interp.ctx.emit("cb", name, tuple(a))
+            if k:
+                interp.ctx.emit("cb", name, tuple(a), tuple(sorted(k.items())))
+            else:
+                interp.ctx.emit("cb", name, tuple(a))
             return ret
         return I.Builtin("cb:" + name, fn)
 
@@ -319,7 +322,10 @@ class NativeWorld:
 
     def callback(self, name, ret=None):
         def fn(*a, **k):
-            NativeRT.events.append(("cb", name, tuple(a)))
+            if k:
+                NativeRT.events.append(("cb", name, tuple(a), tuple(sorted(k.items()))))
+            else:
+                NativeRT.events.append(("cb", name, tuple(a)))
             return ret
         return fn
 
